@@ -302,6 +302,10 @@ func TestC17(t *testing.T) {
 					}
 				}
 			}
+			if format == "ttml" {
+				// CR LF line ends inside text that is kept verbatim (title, copyright) and inside paragraphs
+				docs = append(docs, []byte("<?xml version=\"1.0\" encoding=\"UTF-8\"?>\r\n<tt xmlns=\"http://www.w3.org/ns/ttml\" xmlns:ttm=\"http://www.w3.org/ns/ttml#metadata\">\r\n  <head>\r\n    <metadata>\r\n      <ttm:title>A title\r\nover two lines</ttm:title>\r\n      <ttm:copyright>(c)\r\n\r\nsomeone</ttm:copyright>\r\n    </metadata>\r\n  </head>\r\n  <body>\r\n    <div>\r\n      <p begin=\"00:00:01.000\" end=\"00:00:02.000\">first\r\n        <br/>second</p>\r\n    </div>\r\n  </body>\r\n</tt>\r\n"))
+			}
 			if format == "ttml" && len(docs) > 0 {
 				// something after the root element: a comment, a processing instruction, a second root, junk
 				for i, tail := range []string{"\n<!-- trailing comment -->\n", "<?app done?>", "\n<tt xmlns=\"http://www.w3.org/ns/ttml\"><body><div><p begin=\"1s\" end=\"2s\">second root</p></div></body></tt>", "junk after the document <"} {
